@@ -189,24 +189,7 @@ def applyTok (L : Option Nat) (stv : List G × Bool) (tok : String) : Option (Li
   | ["distinct"], g :: st => some (g.distinct vbeq :: st)
   -- `chunks` (`include.rs:165-184`) is library code: map(some) . add([none]) . aggregate(Agg(stack, disp)) . filter . map;
   -- `some(v)` is `tup [v]`, `none()` is `tup []`, `Agg(s, disp)` is `tup [seq s, int d]` (d: 0 none, 1 some(false), 2 some(true))
-  | ["chunks", n], g :: st => do
-    let n ← n.toNat?
-    let wrap : F := fun | .val v => .val (.tup [v]) | x => x
-    let init : Item := .val (.tup [.seq [], .int 1])
-    let stepF : F2 := fun
-      | .val (.tup [.seq s, _]), .val (.tup [v]) =>
-        .val (.tup [.seq ((if s.length < n then s else []) ++ [v]), .int 0])
-      | .val (.tup [.seq s, _]), .val (.tup []) =>
-        .val (.tup [.seq s, .int (if s.length > 0 && s.length < n then 2 else 1)])
-      | .viol, _ => .viol
-      | _, .viol => .viol
-      | _, _ => .err
-    let keep : P := fun
-      | .val (.tup [.seq s, .int d]) => prOfBool (if d == 0 then s.length == n else d == 2)
-      | .viol => .viol
-      | _ => .err
-    let out : F := fun | .val (.tup [.seq s, _]) => .val (.seq s) | .viol => .viol | _ => .err
-    pure (.map (.filter (.aggregate ((G.map g wrap).mkChain (.fromArr [.tup []])) init stepF) keep) out :: st)
+  | ["chunks", n], g :: st => do let n ← n.toNat?; pure (g.chunks n :: st)
   | "group" :: e, g :: st => do let e ← parseEq (":".intercalate e); pure (.group g e :: st)
   | ["windows", n], g :: st => do let n ← n.toNat?; pure (.windows g n :: st)
   | ["zip", n], st => do
